@@ -298,7 +298,7 @@ func aesClass(pw pwCase, selfOK bool) string {
 	}
 	// the known divergence of the PRECIS identifier profile from SASLprep: U+0020 is disallowed, and so are the
 	// characters SASLprep maps (to a space or to nothing) before normalising.  Anything else is not this finding.
-	divergent := strings.Contains(pw.raw, " ") || pw.sasl != nfkc(pw.raw)
+	divergent := strings.Contains(pw.raw, " ") || strings.Contains(pw.sasl, " ") || pw.sasl != nfkc(pw.raw)
 	if pw.ok && divergent && (err != nil || string(pp) != pw.sasl) {
 		return "aes256-password-prep-not-saslprep"
 	}
@@ -380,7 +380,9 @@ func partAES(r *vh.Run) {
 						cl = ""
 						for _, pw := range []pwCase{upw, opw} {
 							if _, perr := pdfcpu.VerifC24ProcessInput(pw.raw); perr != nil && pw.ok {
-								cl = aesClass(pw, true)
+								if cl = aesClass(pw, true); cl == "" {
+									cl = "iso-mismatch:calcOAndU-refuses-password"
+								}
 							}
 						}
 					}
@@ -596,7 +598,9 @@ func partE2E(r *vh.Run) {
 				if a.rev >= 5 && strings.Contains(err.Error(), "password entries:") {
 					for _, pc := range []pwCase{upc, opc} {
 						if _, perr := pdfcpu.VerifC24ProcessInput(pc.raw); perr != nil {
-							cl = aesClass(pc, true)
+							if cl = aesClass(pc, true); cl == "" {
+								cl = "iso-mismatch:encrypt-refuses-password"
+							}
 						}
 					}
 				}
